@@ -1033,6 +1033,19 @@ static void bfs_case_iter(uint64_t c, vf_rng *r)
         opname = "enumerated-shape";
         walkres w = walk(&root, mkeys, mn);
         if (!w.ok) { VF_COUNT("skipped-structure-broken"); free_all_live(); continue; }
+        if (n && (s & 1))
+        {
+            /* the documented duplicate path with the resident node object ITSELF as the argument (one node object per key is
+               what a caller keeps): the tree must be unchanged - judged by the traversals that follow (seeded change C03-G: the new
+               node is initialised as a leaf before the descent, which wipes the links of a node that is already in the tree) */
+            unsigned const q = (unsigned)vf_below(r, n);
+            vf_log("shape %s (n=%u): insert of the resident node object of pre-order node %u", hex, n, q);
+            if ((void *)T_(insert)(&root, &nodes[q]->n, cmp_node) != (void *)&nodes[q]->n)
+            {
+                vf_viol(TN "/dup-insert-same-object/did-not-return-resident", "shape %s: inserting the resident node %u did not return it", hex, q);
+            }
+            VF_COUNT("iter-after-same-object-duplicate-insert");
+        }
         vf_log("shape %s (n=%u): eight traversal orders, single steps from every node", hex, n);
         check_iterators(&root, (int)n);
         vf_distinct(w.hash);
@@ -1102,6 +1115,16 @@ static void random_case(uint64_t c, vf_rng *r)
                     hnode *h = node_new(key);
                     T_(insert)(&root, &h->n, cmp_node);
                     model_add(key);
+                }
+                else if (vf_chance(r, 1, 2))
+                {
+                    /* key already present: hand the resident node object itself to insert (must come back, tree unchanged) */
+                    hnode *h = find_node(&root, key);
+                    if (h && (void *)T_(insert)(&root, &h->n, cmp_node) != (void *)&h->n)
+                    {
+                        vf_viol(TN "/dup-insert-same-object/did-not-return-resident", "key %d: inserting the resident node did not return it", key);
+                    }
+                    VF_COUNT("iter-after-same-object-duplicate-insert");
                 }
             }
             else if (mn)
